@@ -101,8 +101,13 @@ func DeleteBundle(repo string, stores context2.Stores, bundleID string, opts ...
 	if indexFiles == 0 && options.ignoreBundleError {
 		var e error
 		for i := uint64(0); e == nil; i++ {
-			// delete everything until an error is found
+			// delete everything until a file list is missing or an error is found.
+			// Some stores (e.g. localfs) do not report an error when deleting a missing key: check first.
 			archivePathToBundleFileList := model.GetArchivePathToBundleFileList(repo, bundleID, i)
+			var has bool
+			if has, e = store.Has(context.Background(), archivePathToBundleFileList); e != nil || !has {
+				break
+			}
 			e = store.Delete(context.Background(), archivePathToBundleFileList)
 		}
 	} else {
